@@ -153,6 +153,8 @@ func (g *g4Grammar) operatorLevels() [][]string {
 type c17 struct {
 	evDepth      int
 	parsedParams map[*ssa.Parameter]bool // parameters of boolean helpers that are handed excellent.Parse(value)
+	parentParams map[*ssa.Parameter]bool // parameters of boolean helpers that are handed ctx.GetParent()
+	exactText    bool                    // R5: a change of case or trimming is an edit of the text (R1 reads through it: the grouping is the same)
 	p            *core.Program
 	r            *core.Report
 	ev           *tEval
@@ -264,6 +266,14 @@ func genCtxMethod(c *ssa.Call) (string, ssa.Value, bool) {
 
 func (c *c17) hook(ev *tEval, fr *tFrame, call *ssa.Call) (aval, bool) {
 	com := &call.Call
+	if c.exactText {
+		if o := core.CalleeObj(com); o != nil {
+			switch core.ObjName(o) {
+			case "strings.ToLower", "strings.ToUpper", "strings.TrimSpace":
+				return ev.derive(ev.toStr(ev.val(fr, com.Args[0]), com.Args[0]), "edited", call, nil), true
+			}
+		}
+	}
 	if f := com.StaticCallee(); f != nil && core.FuncPkgPath(f) == ev.pkgPath {
 		switch {
 		case f.Name() == "Visit" && f.Signature.Recv() != nil:
@@ -571,11 +581,9 @@ func (c *c17) condEvidence(kind evKind, cond ssa.Value, taken bool, val ssa.Valu
 			}
 			return true, "parsed as " + n.Obj().Name()
 		case evParent:
-			pc, ok := stripIface(ta.X).(*ssa.Call)
-			if !ok {
-				return false, ""
-			}
-			if m, _, ok := genCtxMethod(pc); !ok || m != "GetParent" {
+			if par, isPar := stripIface(ta.X).(*ssa.Parameter); isPar && c.parentParams[par] {
+				// inside a helper that was handed the parse-tree parent: its parameter is that parent
+			} else if !isParentOfCtx(ta.X) {
 				return false, ""
 			}
 			if why, ok := c.closedParents[n.Obj().Name()]; ok {
@@ -584,31 +592,38 @@ func (c *c17) condEvidence(kind evKind, cond ssa.Value, taken bool, val ssa.Valu
 			return false, "parent " + n.Obj().Name() + " puts its child next to an operator"
 		}
 	case *ssa.Call:
-		if kind != evAtomic {
-			return false, ""
-		}
 		f := x.Call.StaticCallee()
 		if f == nil {
 			return false, ""
 		}
-		if why, ok := c.identPreds[f]; ok && len(x.Call.Args) == 1 && stripIface(x.Call.Args[0]) == stripIface(val) {
+		if why, ok := c.identPreds[f]; ok && kind == evAtomic && len(x.Call.Args) == 1 && stripIface(x.Call.Args[0]) == stripIface(val) {
 			return true, f.Name() + ": " + why
 		}
-		// a boolean helper of the package that is handed the value: every `return true` of the helper carries the
-		// evidence about the parameter the value was passed for
+		// a boolean helper of the package that is handed the value (or, for the parent test, the parse-tree parent):
+		// every `return true` of the helper carries the evidence about the parameter the value was passed for
 		if f.Blocks != nil && core.FuncPkgPath(f) == c.pkg.Pkg.Path() && c.evDepth < 2 && f.Signature.Results().Len() == 1 {
 			if b, isB := f.Signature.Results().At(0).Type().Underlying().(*types.Basic); isB && b.Kind() == types.Bool {
 				for i, a := range x.Call.Args {
 					if i >= len(f.Params) {
 						continue
 					}
-					if c.isParseOf(a, val) {
+					switch {
+					case kind == evParent:
+						// the type test on the parent extracted into a predicate: the helper is handed ctx.GetParent()
+						if !isParentOfCtx(a) {
+							continue
+						}
+						if c.parentParams == nil {
+							c.parentParams = map[*ssa.Parameter]bool{}
+						}
+						c.parentParams[f.Params[i]] = true
+					case c.isParseOf(a, val):
 						// the helper is handed the parse of the value instead of the value
 						if c.parsedParams == nil {
 							c.parsedParams = map[*ssa.Parameter]bool{}
 						}
 						c.parsedParams[f.Params[i]] = true
-					} else if stripIface(a) != stripIface(val) {
+					case stripIface(a) != stripIface(val):
 						continue
 					}
 					c.evDepth++
@@ -653,6 +668,16 @@ func (c *c17) condEvidence(kind evKind, cond ssa.Value, taken bool, val ssa.Valu
 		}
 	}
 	return false, ""
+}
+
+// isParentOfCtx: v is the result of GetParent() of a generated parse-tree context.
+func isParentOfCtx(v ssa.Value) bool {
+	pc, ok := stripIface(v).(*ssa.Call)
+	if !ok {
+		return false
+	}
+	m, _, ok := genCtxMethod(pc)
+	return ok && m == "GetParent"
 }
 
 // blockEvidence: every way into block b carries the evidence.
@@ -1619,7 +1644,7 @@ func (c *c17) bodyCopied() {
 	nBody, nErr := 0, 0
 	for _, cs := range core.Calls(f, false) {
 		o := core.CalleeObj(cs.Common())
-		if o == nil || core.ObjName(o) != "bytes.Buffer.WriteString" {
+		if o == nil || !c17IsWriteString(o) {
 			continue
 		}
 		arg := cs.Common().Args[1]
@@ -1649,20 +1674,161 @@ func (c *c17) bodyCopied() {
 		}
 	}
 	c.r.Require("body_writes", nBody, 1)
-	// error path: "@(" token ")"
-	var lits []string
-	for _, cs := range core.Calls(f, false) {
-		o := core.CalleeObj(cs.Common())
-		if o == nil || core.ObjName(o) != "bytes.Buffer.WriteString" {
-			continue
-		}
-		if s, ok := core.ConstString(cs.Common().Args[1]); ok {
-			lits = append(lits, s)
-			nErr++
+	// error path: what is written while the error of the migration is non-nil reads "@(" token ")" — decided on the text
+	// itself (the writes of the path concatenated in order, each evaluated as a string template), so that three writes,
+	// one write of a concatenation or of a Sprintf, and a local hoisted in front of the test are the same fact
+	fr := &tFrame{fn: f, vals: map[ssa.Value]aval{}}
+	for i, q := range f.Params {
+		if isStringType(q.Type()) {
+			fr.params = append(fr.params, holeStr(&tHole{kind: "param", name: f.Name() + "." + q.Name(), idx: i}))
+		} else {
+			fr.params = append(fr.params, &aUnknown{})
 		}
 	}
-	sort.Strings(lits)
-	c.r.Check(strings.Join(lits, " ") == ") @(", "R5", "migrateLegacyTemplateAsString/failed-expression-re-emitted", c.pos(f), "an expression that fails to migrate is written back as @( token )", "the literal pieces written around an unmigratable expression are "+fmt.Sprint(lits)+", not @( and )")
+	c.exactText = true
+	for pass := 0; pass < 2; pass++ { // the scanner loop: the token is carried round the back edge
+		for _, b := range rpoBlocks(f) {
+			for _, in := range b.Instrs {
+				c.ev.step(fr, in)
+			}
+		}
+	}
+	c.exactText = false
+	// the error results of the package's own (…, error) calls in the function (today: migrateExpression)
+	migErr := map[ssa.Value]bool{}
+	for _, cs := range core.Calls(f, false) {
+		call, ok := cs.Instr.(*ssa.Call)
+		callee := cs.Common().StaticCallee()
+		if !ok || callee == nil || core.FuncPkgPath(callee) != c.pkg.Pkg.Path() {
+			continue
+		}
+		tup, ok := call.Type().(*types.Tuple)
+		if !ok || tup.Len() < 2 || !isErrorType(tup.At(tup.Len()-1).Type()) {
+			continue
+		}
+		for _, ref := range *call.Referrers() {
+			if ex, ok := ref.(*ssa.Extract); ok && ex.Index == tup.Len()-1 {
+				migErr[ex] = true
+			}
+		}
+	}
+	onErrorPath := func(b *ssa.BasicBlock) bool {
+		for _, ce := range core.ControllingConds(b) {
+			bo, ok := ce.Cond.(*ssa.BinOp)
+			if !ok || (bo.Op != token.NEQ && bo.Op != token.EQL) {
+				continue
+			}
+			if !(migErr[bo.X] && core.IsNilConst(bo.Y)) && !(migErr[bo.Y] && core.IsNilConst(bo.X)) {
+				continue
+			}
+			if ce.Taken == (bo.Op == token.NEQ) {
+				return true
+			}
+		}
+		return false
+	}
+	written := &aStr{alts: []tAlt{{}}}
+	var errBlocks []*ssa.BasicBlock
+	handedOn := false
+	var stray []string
+	for _, b := range rpoBlocks(f) {
+		onErr := onErrorPath(b)
+		for _, in := range b.Instrs {
+			ci, ok := in.(ssa.CallInstruction)
+			if !ok {
+				continue
+			}
+			o := core.CalleeObj(ci.Common())
+			if o == nil || !c17IsWriteString(o) {
+				// a helper of the package that is handed the buffer on the error path writes on its behalf
+				if callee := ci.Common().StaticCallee(); onErr && callee != nil && core.FuncPkgPath(callee) == c.pkg.Pkg.Path() {
+					for _, a := range ci.Common().Args {
+						if pt, isP := a.Type().Underlying().(*types.Pointer); isP && c17IsTextBuffer(pt.Elem()) {
+							handedOn = true
+						}
+					}
+				}
+				continue
+			}
+			arg := ci.Common().Args[1]
+			text := c.ev.toStr(c.ev.val(fr, arg), arg)
+			if onErr {
+				nErr++
+				written = concatStr(written, text)
+				if len(errBlocks) == 0 || errBlocks[len(errBlocks)-1] != b {
+					errBlocks = append(errBlocks, b)
+				}
+				continue
+			}
+			// elsewhere only scanned or migrated text is written: a literal piece there is text the template does not have
+			for _, a := range text.alts {
+				if lit, isLit := a.isLit(); isLit && lit != "" {
+					stray = append(stray, lit)
+				}
+			}
+		}
+	}
+	isScannedToken := func(h *tHole) bool {
+		if h == nil || h.src == nil || h.from != nil || len(h.subs) > 0 {
+			return false
+		}
+		for x := range core.BackSlice(h.src, nil) {
+			switch y := x.(type) {
+			case *ssa.Phi, *ssa.Extract:
+			case *ssa.Call:
+				if oo := core.CalleeObj(&y.Call); oo == nil || !strings.HasSuffix(core.ObjName(oo), ".Scan") {
+					return false
+				}
+			default:
+				return false
+			}
+		}
+		return true
+	}
+	key := "migrateLegacyTemplateAsString/failed-expression-re-emitted"
+	// the writes of the error path must follow one another on every run of it: one block, or a chain in which each block
+	// is the only way on from the one before
+	straight := true
+	for i := 1; i < len(errBlocks); i++ {
+		if len(errBlocks[i-1].Succs) != 1 || errBlocks[i-1].Succs[0] != errBlocks[i] || len(errBlocks[i].Preds) != 1 {
+			straight = false
+		}
+	}
+	switch {
+	case len(migErr) == 0:
+		c.r.Unknown("R5", key, c.pos(f), "no call of the package returning an error is made in the function: the path of an expression that fails to migrate is not found")
+	case nErr == 0 && handedOn:
+		c.r.Unknown("R5", key, c.pos(f), "on the error path the buffer is handed to a helper; what it writes is not followed")
+	case !straight:
+		c.r.Unknown("R5", key, c.pos(f), "the writes on the error path are spread over branches; their order is not decided")
+	default:
+		var shown []string
+		good := nErr > 0 && len(written.alts) > 0 && len(stray) == 0
+		for _, a := range written.alts {
+			shown = append(shown, a.String())
+			ps := a.pieces
+			if len(ps) != 3 || ps[0].hole != nil || ps[0].lit != "@(" || !isScannedToken(ps[1].hole) || ps[2].hole != nil || ps[2].lit != ")" {
+				good = false
+			}
+		}
+		sort.Strings(stray)
+		c.r.Check(good, "R5", key, c.pos(f), "an expression that fails to migrate is written back as @( token )", "the text written for an unmigratable expression is "+fmt.Sprint(uniq(shown))+", not @( the scanned token ); literal pieces written elsewhere: "+fmt.Sprint(stray))
+	}
+}
+
+// c17IsWriteString: the WriteString method of the text buffers of the standard library.
+func c17IsWriteString(o *types.Func) bool {
+	n := core.ObjName(o)
+	return n == "bytes.Buffer.WriteString" || n == "strings.Builder.WriteString"
+}
+
+func c17IsTextBuffer(t types.Type) bool {
+	n, ok := t.(*types.Named)
+	if !ok || n.Obj().Pkg() == nil {
+		return false
+	}
+	q := n.Obj().Pkg().Path() + "." + n.Obj().Name()
+	return q == "bytes.Buffer" || q == "strings.Builder"
 }
 
 // ---------------------------------------------------------------------------------------------- R6
